@@ -24,26 +24,25 @@ TagsOf(D, op, D2) ==
   (IF D.nfree > 0 /\ D2.nfree < D.nfree THEN {"blockReuse"} ELSE {})
   \cup (IF Len(D2.blocks) > Len(D.blocks) /\ Len(D.blocks) > 0 THEN {"newBlock"} ELSE {})
   \cup (IF Len(D2.blocks) < Len(D.blocks) /\ op.op = "popBack" THEN {"blockFreed"} ELSE {})
-  \cup (IF KnownDeviation(D, op) THEN {"deviation"} ELSE {})
+  \cup (IF RepairedPath(D, op) THEN {"repaired"} ELSE {})        \* runs through code repaired by a fix: commit
 
-Do(op, g) ==
+Do(op) ==
   /\ DeqApply(Items(d), op).ok
   /\ (op.op = "resize" => op.n # Size(d))
-  /\ (g => ~KnownDeviation(d, op))
   /\ LET r == ImplApply(d, op) IN
        /\ d' = r.d /\ res' = r.res /\ other' = r.other /\ tags' = TagsOf(d, op, r.d)
   /\ prev' = d
   /\ hist' = Append(hist, op)
 
-NextG(g) == /\ ~fin /\ Len(hist) < MaxHist
-            /\ \E op \in Ops : /\ Do(op, g)
-                               /\ \/ fin' = TRUE
-                                  \/ fin' = FALSE /\ Len(hist) + 1 < MaxHist /\ "deviation" \notin tags' /\ Size(d') <= MaxLen
-Spec == Init /\ [][NextG(TRUE)]_vars
-GenSpec == Init /\ [][NextG(FALSE)]_vars
+Next == /\ ~fin /\ Len(hist) < MaxHist
+        /\ \E op \in Ops : /\ Do(op)
+                            /\ \/ fin' = TRUE
+                               \/ fin' = FALSE /\ Len(hist) + 1 < MaxHist /\ Size(d') <= MaxLen
+Spec == Init /\ [][Next]_vars
+GenSpec == Spec                                 \* (no known deviation is left to be generated separately)
 
-(* random long histories (tlc -simulate): only advancing steps, known deviations kept out *)
-SimNext == ~fin /\ Len(hist) < MaxHist /\ \E op \in Ops : Do(op, TRUE) /\ fin' = FALSE /\ Size(d') <= MaxLen
+(* random long histories (tlc -simulate): only advancing steps *)
+SimNext == ~fin /\ Len(hist) < MaxHist /\ \E op \in Ops : Do(op) /\ fin' = FALSE /\ Size(d') <= MaxLen
 SimSpec == Init /\ [][SimNext]_vars
 
 ObsOf(D) == LET s == Items(D) IN
@@ -57,7 +56,6 @@ StepRefines ==
      /\ DeqObsOK(a.st, ObsOf(d'))
      /\ res' = a.res
      /\ DeqOtherOK(Items(prev'), op, other')
-Refinement == [][~KnownDeviation(prev', hist'[Len(hist')]) => StepRefines]_vars
-DeviationsAreReal == [][KnownDeviation(prev', hist'[Len(hist')]) => ~StepRefines]_vars
-WellFormedInv == "deviation" \notin tags => WellFormed(d)
+Refinement == [][StepRefines]_vars              \* no exclusions: every transition of the transcribed algorithm
+WellFormedInv == WellFormed(d)
 =============================================================================
